@@ -392,6 +392,19 @@ def run_impl(case):
             pk = pickle.loads(pickle.dumps(obj))
             out['pickled'] = texpr_ir(ops_of(pk))
             out['pickled_same_type'] = type(pk) is type(obj)
+            # every protocol (0 and 1 go through copyreg and treat slotted classes differently), and the copy module
+            import copy
+            for proto in range(0, pickle.HIGHEST_PROTOCOL + 1):
+                pk2 = pickle.loads(pickle.dumps(obj, proto))
+                if texpr_ir(ops_of(pk2)) != out['pickled'] or type(pk2) is not type(obj):
+                    out['pickled'] = None
+                    out['pickle_error'] = 'protocol %d gives a different expression' % proto
+                    break
+            else:
+                for cp in (copy.copy(obj), copy.deepcopy(obj)):
+                    if texpr_ir(ops_of(cp)) != out['pickled'] or type(cp) is not type(obj):
+                        out['pickled'] = None
+                        out['pickle_error'] = 'copy / deepcopy gives a different expression'
         except Exception as e:
             out['pickled'] = None
             out['pickle_error'] = '%s: %s' % (type(e).__name__, e)
